@@ -30,7 +30,7 @@ CHUNK = 1
 TASK_TIMEOUT_S = 900
 DDMIN_MAX_TESTS = 24
 MINIMISE_BUDGET_S = 300
-RUNS = {"C08": (160, 2400)}
+RUNS = {"C08": (160, 1500)}
 RULE = ("one run = one world: 1..3 interpreter lifetimes sharing one Numba cache directory, each "
         "with 1..5 aggregate() calls of 1..3 helpers over seeded frames (<=12 rows, 1..5 groups, "
         "unsorted, NA placement none/some/whole-group/whole-column), seeded cache faults between "
